@@ -48,7 +48,7 @@ def rand_idl(rng, depth=3):
         members.append(("M", nm, "", rand_struct(rng, depth - 1, defined), rand_struct(rng, depth - 1, defined)))
     for nm in rng.sample(["E1", "NotFound", "Bad", "Err"], rng.choice([0, 1, 2])):
         r = rng.random()
-        members.append(("X", nm, "", None if r < 0.3 else rand_struct(rng, depth - 1, defined)))
+        members.append(("X", nm, "", None if r < 0.3 else rand_struct(rng, depth - 1, defined) if r < 0.85 else rand_ty(rng, 1, defined)))
     rng.shuffle(members)
     # aliases may be referenced before their definition: Go does not care
     return (rng.choice(IFACES), "", members)
@@ -83,6 +83,15 @@ def systematic():
             out.append(("a.b", "", [("T", "T", "", ("S", [("n", ("A", ("S", [("w", t)])))])), ("M", "M", "", ("S", [("p", ("N", "T"))]), ("S", [("q", ("Q", ("N", "T")))]))]))
     out.append(("a.b", "", [("M", "M", "", e, e), ("X", "E", "", None)]))
     out.append(("a.b", "", [("M", "M", "", e, e), ("X", "E", "", None), ("X", "F", "", ("S", []))]))
+    # an error's parameter type may be any type, not only a struct: enum, builtin, array, map, optional, alias
+    for t in [("E", ["low", "high"]), ("E", ["a"]), ("s",), ("i",), ("o",), ("A", ("i",)), ("D", ("s",)), ("Q", ("S", [("c", ("i",))])), ("Q", ("i",)),
+              ("A", ("S", [("c", ("i",))])), ("N", "T")]:
+        out.append(("a.b", "", [("T", "T", "", ("S", [("k", ("i",))])), ("M", "M", "", e, e), ("X", "E", "", t), ("X", "F", "", ("S", [("z", ("s",))]))]))
+        out.append(("a.b", "", [("T", "T", "", ("E", ["on", "off"])), ("M", "M", "", e, e), ("X", "E", "", t)]))
+    # ... also when the optional hides behind aliases (a Go pointer type cannot carry the Error method)
+    for body in [("Q", ("i",)), ("Q", ("S", [("c", ("i",))])), ("Q", ("N", "U")), ("N", "U"), ("Q", ("N", "T"))]:
+        out.append(("a.b", "", [("T", "T", "", body), ("T", "U", "", ("Q", ("S", [("k", ("s",))]))), ("M", "M", "", e, e), ("X", "E", "", ("N", "T")),
+                                ("X", "F", "", ("Q", ("N", "T")))]))
     for nm in IFACES:
         out.append((nm, "", [("M", "M", "", ("S", [("a", ("i",))]), e)]))
     for kw in GO_KEYWORDS + LOCALS:
